@@ -724,6 +724,10 @@ class Machine:
                     out_.append(self.invoke(fn_, list(items), {}))
                 elif isinstance(fn_, OpHelper) and len(items) == 1:
                     out_.append(self.apply_helper(fn_, items[0], e))
+                elif isinstance(fn_, Opaque) and fn_.text.split(".")[-1].lstrip("_") in ("methodcaller", "attrgetter", "itemgetter") \
+                        and all(isinstance(x_, (str, int)) for x_ in items):
+                    k_ = fn_.text.split(".")[-1].lstrip("_")
+                    out_.append(OpHelper(k_, tuple(items[:1]), tuple(items[1:])) if k_ == "methodcaller" else OpHelper(k_, tuple(items)))
                 elif isinstance(fn_, Opaque):
                     r_ = self.call_hook(self, e, fn_.text, list(items), {})
                     out_.append(Opaque(f"{fn_.text}({', '.join(render(x) for x in items)})", ("call", fn_.text, list(items), {}, None)) if r_ is NotImplemented else r_)
